@@ -17,7 +17,8 @@ From SP Require Import Base.Result Base.Bytes Model.PduHeader Spec.PduHeaderSpec
   Spec.PduASpec Proofs.EofProofs Proofs.AckProofs Proofs.PromptProofs Proofs.KeepAliveProofs
   Spec.PduBSpec Proofs.FinishedProofs Proofs.MetadataProofs Spec.PduCSpec Proofs.NakProofs
   Model.Factory Proofs.FactoryProofs.
-From SP Require Model.FileData Spec.FileDataSpec.
+From SP Require Model.FileData Spec.FileDataSpec Proofs.FileDataProofs.
+From SP Require Import Proofs.DirectiveProofs Proofs.FactoryExamples.
 Import ListNotations.
 Open Scope Z_scope.
 
@@ -126,3 +127,29 @@ Print Assumptions C12_factory_holder_table_any.
 (* non-vacuity: the example parameter sets of C06 / C07 satisfy the hypotheses *)
 Example C12_nak_example : nak_valid nak_example_conf nak_example_params.
 Proof. exact nak_valid_example. Qed.
+Example C12_file_data_example : FileDataSpec.fd_valid FileDataProofs.fd_example_conf FileDataProofs.fd_example_params.
+Proof. exact (proj1 FileDataProofs.fd_valid_example). Qed.
+Example C12_eof_example : eof_valid eof_example_conf eof_example_params.
+Proof. exact eof_valid_example. Qed.
+Example C12_finished_example : fin_valid (ex_conf 1 0) ex_fin /\ fin_params_std ex_fin.
+Proof. exact fin_valid_example. Qed.
+Example C12_ack_example : ack_valid ack_example_conf ack_example_params.
+Proof. exact ack_valid_example. Qed.
+Example C12_metadata_example : md_valid (ex_conf 1 1) ex_md ex_opts.
+Proof. exact md_valid_example. Qed.
+Example C12_prompt_example : prompt_valid prompt_example_conf 1.
+Proof. exact prompt_valid_example. Qed.
+Example C12_keep_alive_example : ka_valid ka_example_conf 72623859790382856.
+Proof. exact ka_valid_example. Qed.
+(* directive_head: a packed EOF PDU followed by two foreign octets; pdu_wf and the accessor table *)
+Example C12_directive_head_example :
+  directive_head (eof_layout eof_example_conf eof_example_params ++ [165; 90])
+                 (directive_fdir eof_example_conf 0 4 (eof_params_layout eof_example_conf eof_example_params)) /\
+  fac_pdu_directive_type (eof_layout eof_example_conf eof_example_params ++ [165; 90]) = Ok (Some 4).
+Proof. exact directive_head_example. Qed.
+Example C12_pdu_wf_example :
+  pdu_wf (PEof (eof_pdu_of eof_example_conf eof_example_params)) /\
+  holder_to 1 (Some (PEof (eof_pdu_of eof_example_conf eof_example_params))) =
+    Ok (PEof (eof_pdu_of eof_example_conf eof_example_params)) /\
+  holder_to 2 (Some (PEof (eof_pdu_of eof_example_conf eof_example_params))) = Err EType.
+Proof. exact pdu_wf_example. Qed.
